@@ -203,6 +203,13 @@ func EvaluateAlignment(fromDomain string, record *Record, results []authres.Resu
 }
 
 func isAligned(fromDomain, authDomain string, mode AlignmentMode) bool {
+	// Domain names are case-insensitive, but publicsuffix matches its rules
+	// against the literal string. Header-supplied spellings such as
+	// EXAMPLE.CO.UK would otherwise fall through to the default "*" rule
+	// and get CO.UK as the organizational domain.
+	fromDomain = strings.ToLower(fromDomain)
+	authDomain = strings.ToLower(authDomain)
+
 	if mode == dmarc.AlignmentStrict {
 		return strings.EqualFold(fromDomain, authDomain)
 	}
